@@ -5,7 +5,8 @@ import os
 import time
 
 VERIF = os.path.dirname(os.path.dirname(os.path.abspath(__file__)))
-EVIDENCE_DIR = os.path.join(VERIF, 'evidence')
+# VERIF_EVIDENCE_DIR: development aid (seeded-defect and mutation runs write their evidence elsewhere)
+EVIDENCE_DIR = os.environ.get('VERIF_EVIDENCE_DIR') or os.path.join(VERIF, 'evidence')
 REPLAY_DIR = os.path.join(EVIDENCE_DIR, 'replays')
 KNOWN = os.path.join(VERIF, 'KNOWN_FINDINGS.json')
 
